@@ -35,7 +35,7 @@ def variants():
 
 
 def budget(tier):
-    return 200 if tier == "quick" else 3000
+    return 400 if tier == "quick" else 3000
 
 
 def decode_case(raw):
